@@ -1,5 +1,6 @@
 import BoboVerif.Model.Json
 import BoboVerif.Lemmas.Json
+import BoboVerif.Lemmas.JsonWitness
 import BoboVerif.Gen.Serial
 import Std.Data.String.ToInt
 /-!
@@ -233,8 +234,33 @@ example (c : Codec) :
 example : splitPlain (header "urn:a".toList "k1".toList "0".toList "1".toList "{\"a\": [1, 2]}".toList)
     = some ("urn:a".toList, "k1".toList, "0".toList, "1".toList, "{\"a\": [1, 2]}".toList) := by decide
 
-/-- with too little fuel the factory does not get to the innermost events (the fuel hypothesis
-of `run_roundtrip` is not idle). -/
-example (loads : String → Option JVal) (j : JVal) : decodeEvD loads 0 j = none := rfl
+/-- the codec hypothesis is satisfiable: `Lemmas/JsonWitness.lean` builds a text codec (a prefix
+code) and proves its law for every value, so the `∀ c : Codec` of the theorems above is not
+vacuous. -/
+theorem codec_inhabited : Nonempty Codec := ⟨Witness.codec⟩
+
+example : decodeRun Witness.codec.loads 3 (runText Witness.codec.dumps sampleRun) = some sampleRun :=
+  run_roundtrip Witness.codec sampleRun sampleRun_wf.1 3 (by rw [sampleRun_wf.2]; omega)
+
+/-- the fuel hypothesis of `run_roundtrip` is not idle: with no budget for the factory no
+record decodes (every record holds at least one event). -/
+theorem fuel_zero_fails (c : Codec) (r : Run) (hw : r.WF) :
+    decodeRun c.loads 0 (runText c.dumps r) = none := by
+  have hd := interpDec_encodeRun c r hw
+  have hwf := encodeRun_wf c r hw
+  obtain ⟨h1, h2, h3, h4, h5⟩ := hw
+  have hh : decodeHistD c.loads 0 (encodeHist c.dumps r.hist) = none := by
+    cases hr : r.hist with
+    | nil => rw [hr] at h4; simp [Groups.size] at h4
+    | cons g es gs =>
+      rw [hr] at h5
+      simp only [Groups.WF] at h5
+      cases es with
+      | nil => exact absurd rfl h5.1
+      | cons e es' =>
+        have he := encodeEv_wf c e (by have := h5.2.1; simp only [Evs.WF] at this; exact this.1)
+        simp [decodeHistD, encodeHist, decodeHistWith, encodeGroups, decodeGroupsWith, encodeEvs, decodeEvsWith,
+          histSchema, fromText, c.loads_dumps _ he, decodeEvD]
+  simp [decodeRun, runText, c.loads_dumps _ hwf, decodeRunD, hd, Run.kwargs, mkRun, hh]
 
 end Bobo.Json
